@@ -21,6 +21,9 @@ type Script struct {
 	Store  *Store
 	HB     int
 	Cfg    ScriptCfg
+	// BaseTasks: ids of the library tasks that existed before the connection was made (the
+	// acceptor's own goroutines); they may live as long as the acceptor serves
+	BaseTasks map[string]bool
 }
 
 // Client is one scripted peer connection with its own identifiers and sequence numbers.
@@ -76,6 +79,11 @@ func (w *World) NewScript(cfg ScriptCfg) *Script {
 		sc.PeerID, sc.LibID = "PEER", "LIB"
 		sc.Acc = w.StartAcceptor(AccCfg{HandlerBuf: cfg.HandlerBuf, WriteTimeout: cfg.WriteTimeout, HBMin: cfg.HBMin, HBMax: cfg.HBMax,
 			CloseTimeout: cfg.CloseTimeout, Approve: cfg.Approve, Store: sc.Store, OnSession: cfg.OnAccSession, Opts: cfg.Opts, NewCS: cfg.NewCS})
+		simrt.Settle()
+		sc.BaseTasks = map[string]bool{}
+		for _, t := range w.Sched.Alive() {
+			sc.BaseTasks[t.ID] = true
+		}
 		cli, srv := sc.Acc.L.Dial("script", -1, -1)
 		sc.LibEnd = srv
 		sc.P = NewPeer(w, cli, "peer")
